@@ -92,20 +92,21 @@ PNBest ==
 
 \* ---- verdicts ----------------------------------------------------------------
 IsConventional ==
-    /\ doc.k = "one" /\ Len(items) >= 2 /\ doc.y \in 1..Len(items)
-    /\ \A i \in 1..Len(items) : items[i] = [t |-> "num", n |-> i, u |-> IF i = doc.y THEN NoURL ELSE One(i)]
+    /\ doc.k \in {"one", "file", "q"} /\ Len(items) >= 2 /\ doc.y \in 1..Len(items)
+    /\ \A i \in 1..Len(items) : items[i] = [t |-> "num", n |-> i, u |-> IF i = doc.y THEN NoURL ELSE [doc EXCEPT !.y = i]]
 
 Failed(o) ==
     IF o.err THEN {}
     ELSE (IF Len(o.answers) # 1 THEN {"C11_RepeatedCallsAgree"} ELSE {})
          \cup (IF o.next \notin LinkURLs(items) \cup {NoURL} THEN {"C16_NextIsALinkOfThePager"} ELSE {})
          \cup (IF o.prev \notin LinkURLs(items) \cup {NoURL} THEN {"C16_PrevIsALinkOfThePager"} ELSE {})
-         \cup (IF IsConventional /\ o.next # (IF doc.y < Len(items) THEN One(doc.y + 1) ELSE NoURL)
+         \cup (IF IsConventional /\ o.next # (IF doc.y < Len(items) THEN [doc EXCEPT !.y = doc.y + 1] ELSE NoURL)
                THEN {"C17_NextIsPageAfter"} ELSE {})
-         \cup (IF IsConventional /\ o.prev # (IF doc.y > 1 THEN One(doc.y - 1) ELSE NoURL)
+         \cup (IF IsConventional /\ o.prev # (IF doc.y > 1 THEN [doc EXCEPT !.y = doc.y - 1] ELSE NoURL)
                THEN {"C17_PrevIsPageBefore"} ELSE {})
 
-Family == IF \E i \in 1..Len(items) : items[i].u.k = "grid" THEN "grid" ELSE "one"
+Family == LET S == {items[i].u.k : i \in 1..Len(items)} \cap {"grid", "one", "file", "q", "q2"}
+          IN  IF S = {} THEN "none" ELSE CHOOSE f \in S : TRUE
 Class(name, o) ==
     "pn:" \o Family \o ":" \o
     (IF name = "C11_RepeatedCallsAgree" THEN "answers-differ"
